@@ -204,6 +204,36 @@ type World struct {
 	l2Tx     int
 
 	concrete *concrete
+	l2Gap    uint64 // 0: dense
+}
+
+// Spacing numbers the L2 blocks of a world: block i (0-based) has number First + i*Gap. The zero value is the dense chain
+// 1, 2, 3, ... A syncer's store is sparse in reality (it holds the blocks with events of its contracts plus the last block of
+// every downloaded range), so the block ranges of certificates are long and the events sit at arbitrary distances.
+type Spacing struct{ First, Gap uint64 }
+
+func (s Spacing) String() string {
+	if s == (Spacing{}) {
+		return "dense"
+	}
+	return fmt.Sprintf("L2 blocks %d+%d*i", s.First, s.Gap)
+}
+
+// NewSpaced is New with another numbering of the L2 blocks.
+func NewSpaced(sp Spacing) *World {
+	w := New()
+	if sp != (Spacing{}) {
+		w.l2Gap = sp.Gap
+		w.L2Open.Num = sp.First
+	}
+	return w
+}
+
+func (w *World) nextL2Num() uint64 {
+	if w.l2Gap == 0 {
+		return w.L2Open.Num + 1
+	}
+	return w.L2Open.Num + w.l2Gap
 }
 
 // New returns the initial world: no deposits, no L1 info leaf, empty open blocks number 1.
@@ -429,7 +459,7 @@ func (w *World) Apply(op Op) {
 	case CloseL2Block:
 		w.L2Open.FinalizedL1 = w.Finalized
 		w.L2Blocks = append(w.L2Blocks, w.L2Open)
-		w.L2Open = &Block{Num: w.L2Open.Num + 1}
+		w.L2Open = &Block{Num: w.nextL2Num()}
 	case FinalizeL1:
 		w.Finalized += uint64(op.A)
 	case InjectGER:
@@ -467,7 +497,7 @@ func (w *World) Finish() {
 	if len(w.L2Open.Events) > 0 {
 		w.L2Open.FinalizedL1 = w.Finalized
 		w.L2Blocks = append(w.L2Blocks, w.L2Open)
-		w.L2Open = &Block{Num: w.L2Open.Num + 1}
+		w.L2Open = &Block{Num: w.nextL2Num()}
 	}
 }
 
